@@ -23,11 +23,57 @@ def _addr(e):
     return {"k": "un", "op": "&", "postfix": False, "e": e, "t": (t + " *") if t else ""}
 
 
+def _rec_fields(d):
+    out = {}
+    for r in d["records"]:
+        for n in [r["name"]] + ([r["tag"]] if r.get("tag") else []) + list(r.get("typedefs", [])):
+            if n:
+                for k in (n, "struct " + n):
+                    out.setdefault(k, (r.get("tag") or r["name"], r["fields"], r.get("union")))
+    return out
+
+
+def _field_stores(ev, e, t, init, fields):
+    """`lhs = (T){a, b, …}` as one store per field, in declaration order (fields without an initialiser are zeroed)."""
+    tag, flds, is_union = fields
+    if is_union or len(init.get("elems", [])) > len(flds) or any(x.get("k") == "init" for x in init.get("elems", [])):
+        return None
+    lhs = e["l"]
+    arrow = lhs.get("k") == "un" and lhs.get("op") == "*"
+    base = lhs["e"] if arrow else lhs
+    out = []
+    for i, fd in enumerate(flds):
+        rhs = init["elems"][i] if i < len(init["elems"]) else {"k": "int", "v": 0, "t": "int", "cv": 0}
+        mem = {"k": "member", "field": fd["name"], "rec": tag, "arrow": arrow, "ct": fd.get("ct", ""), "base": base, "t": fd.get("t", "")}
+        new = {"line": ev.get("line"), "ev": "assign", "e": {"k": "assign", "op": "=", "l": mem, "r": rhs, "t": fd.get("t", "")}}
+        if "macro" in ev:
+            new["macro"] = ev["macro"]
+        out.append(new)
+    return out
+
+
 def canonicalise(d):
     sizes = _rec_sizes(d)
+    fields = _rec_fields(d)
     n = 0
     for rf in d["functions"]:
         for b in rf["blocks"]:
+            expanded = []
+            for ev in b["events"]:
+                if ev.get("ev") == "assign" and ev["e"].get("op") == "=":
+                    e = ev["e"]
+                    t = (e.get("t") or "").replace("const ", "").strip()
+                    r = e["r"]
+                    while r.get("k") in ("cast", "icast", "paren", "compound") and "e" in r:
+                        r = r["e"]
+                    if "*" not in t and t in fields and r.get("k") == "init":
+                        fs = _field_stores(ev, e, t, r, fields[t])
+                        if fs:
+                            expanded.extend(fs)
+                            n += 1
+                            continue
+                expanded.append(ev)
+            b["events"] = expanded
             for ev in b["events"]:
                 if ev.get("ev") != "assign":
                     continue
